@@ -746,8 +746,12 @@ def check_gadget_closures(R, prog):
         cfg = CFG(cl.node)
         sign_nodes = []
         for st in stmts_in(cl.node):
-            if isinstance(st, ast.If):
-                for t in ast.walk(st.test):
+            tests = [st.test] if isinstance(st, ast.If) else []
+            if not isinstance(st, (ast.If, ast.For, ast.While, ast.Try, ast.With, ast.FunctionDef)):
+                # `f(a if lit > 0 else b)`: a conditional expression inside a simple statement distinguishes the sign where that statement runs
+                tests += [x.test for x in ast.walk(st) if isinstance(x, ast.IfExp)]
+            for test in tests:
+                for t in ast.walk(test):
                     if isinstance(t, ast.Compare) and len(t.ops) == 1 and isinstance(t.ops[0], (ast.Gt, ast.Lt, ast.GtE, ast.LtE)) and \
                             {src(t.left), src(t.comparators[0])} == {lit, "0"}:
                         sign_nodes.append(cfg.node_of(st))
